@@ -1,0 +1,43 @@
+//! Verification hooks (compiled only with `--cfg kolibrie_verif`).
+//!
+//! The RSP engine's worker and coordinator threads call `yield_point` at a few
+//! places so that a test harness can perturb thread schedules from a seed, and
+//! bump `FIRINGS_DONE` after each processed window firing so that the harness
+//! can wait for completion without sleeping. With the cfg off this module does
+//! not exist and the call sites compile to nothing.
+
+use std::sync::atomic::{AtomicU64, Ordering};
+use std::sync::{Arc, RwLock};
+
+pub type YieldHook = Arc<dyn Fn(u32) + Send + Sync>;
+
+static HOOK: RwLock<Option<YieldHook>> = RwLock::new(None);
+
+/// Number of window firings whose processor has returned (all engines).
+pub static FIRINGS_DONE: AtomicU64 = AtomicU64::new(0);
+
+/// Number of coordinator emissions attempted (all engines).
+pub static COORDINATOR_STEPS: AtomicU64 = AtomicU64::new(0);
+
+pub const SITE_WORKER_BEFORE_PROCESS: u32 = 1;
+pub const SITE_WORKER_AFTER_PROCESS: u32 = 2;
+pub const SITE_COORDINATOR_AFTER_RECV: u32 = 3;
+
+pub fn set_yield_hook(hook: Option<YieldHook>) {
+    *HOOK.write().unwrap() = hook;
+}
+
+pub fn yield_point(site: u32) {
+    let hook = HOOK.read().unwrap().clone();
+    if let Some(hook) = hook {
+        hook(site);
+    }
+}
+
+pub fn firing_done() {
+    FIRINGS_DONE.fetch_add(1, Ordering::SeqCst);
+}
+
+pub fn coordinator_step() {
+    COORDINATOR_STEPS.fetch_add(1, Ordering::SeqCst);
+}
